@@ -138,3 +138,50 @@ Proof.
   split; [|split; [exact R2|exact R7]].
   intros i. rewrite R1. apply F2.
 Qed.
+
+(* ---- in-order arrival (what the store produces since /repo 3d54e87) ---- *)
+Lemma increasing_tail : forall p r, increasing (p :: r) = true -> increasing r = true.
+Proof. intros p [|q r] H; [reflexivity|]. cbn [increasing] in H. apply andb_true_iff in H. exact (proj2 H). Qed.
+
+Lemma increasing_above : forall r p, increasing (p :: r) = true ->
+  forallb (fun q => pcommit p <? pcommit q) r = true.
+Proof.
+  induction r as [|q r IH]; intros p H; [reflexivity|].
+  cbn [increasing] in H. apply andb_true_iff in H. destruct H as [H1 H2].
+  cbn [forallb]. rewrite H1. cbn [andb].
+  specialize (IH q H2). rewrite forallb_forall in *. intros x Hx. specialize (IH x Hx).
+  apply Z.ltb_lt in H1, IH. apply Z.ltb_lt. lia.
+Qed.
+
+(* under in-order arrival changesAfter only ever drops a prefix: the arrivals split into the
+   ones the seed already shows, all dropped, followed by the newer ones, all passed on *)
+Theorem in_order_drops_a_prefix : forall thr arr, increasing arr = true ->
+  exists stale live, arr = stale ++ live /\
+    forallb (fun p => negb (ca_pass thr p)) stale = true /\
+    forallb (ca_pass thr) live = true /\
+    changes_after thr arr = map pchange live.
+Proof.
+  intros thr. induction arr as [|p r IH]; intros H.
+  - exists [], []. repeat split; reflexivity.
+  - destruct (ca_pass thr p) eqn:Ep.
+    + exists [], (p :: r). split; [reflexivity|]. split; [reflexivity|].
+      assert (A : forallb (ca_pass thr) (p :: r) = true).
+      { cbn [forallb]. rewrite Ep. cbn [andb]. pose proof (increasing_above r p H) as U.
+        rewrite forallb_forall in *. intros x Hx. specialize (U x Hx). unfold ca_pass in *.
+        apply Z.ltb_lt in U, Ep. apply Z.ltb_lt. lia. }
+      split; [exact A|]. unfold changes_after. f_equal.
+      clear -A. induction (p :: r) as [|x l IHl]; [reflexivity|].
+      cbn [forallb] in A. apply andb_true_iff in A. destruct A as [A1 A2].
+      cbn [filter]. rewrite A1. f_equal. exact (IHl A2).
+    + destruct (IH (increasing_tail _ _ H)) as [stale [live [E [S [L C]]]]].
+      exists (p :: stale), live. subst r. split; [reflexivity|].
+      split; [cbn [forallb]; rewrite Ep; exact S|]. split; [exact L|].
+      unfold changes_after in *. cbn [filter]. rewrite Ep. exact C.
+Qed.
+
+(* in-order arrival of everything the committed script has above the threshold IS the committed
+   script above the threshold: no hypothesis about overlapping writers is left *)
+Corollary in_order_same_stream : forall thr hist arr,
+  changes_after thr arr = changes_after thr hist ->
+  per_id_same (changes_after thr hist) (changes_after thr arr).
+Proof. intros thr hist arr E i. rewrite E. reflexivity. Qed.
